@@ -15,7 +15,8 @@ EXHAUSTIVE = {"quick": "all 700 datasets (3 elements, <=2 rankings) x 5 schemes 
 ASSUMPTIONS = ["optimal consensus set by brute force (n<=5) / optimum by subset DP above", "CBC trusted; CPLEX stand-in",
                "'delegated' is observed by wrapping the auxiliary algorithm"]
 SCHEMES = [ac.P_UNI5, ac.P_UNI1, ac.P_IND1, ac.P_PSE5, ac.P_EXT]
-PARCONS = ["ParCons", "ParCons(b0,BioConsert)", "ParCons(b1,KwikSort)", "ParCons(b2,Borda)", "ParCons(b0,BioCo)",
+PARCONS = ["ParCons", "ParCons(b0,BioConsert)", "ParCons(b1,KwikSort)", "ParCons(b2,Borda)", "ParCons(b3,BioConsert)",
+           "ParCons(b0,BioCo)",
            "ParCons(b0,ParCons(b0,Borda))", "ParCons(b80,rec)"]
 OTHERS = [c for c in algorun.ALL_CONFIGS if c not in PARCONS]
 
@@ -26,7 +27,7 @@ def _nt_run(rec):
 
 
 def _runs(dss, stride=1, others_stride=4):
-    cs = ac.cases(dss, PARCONS, SCHEMES, flags=(1,), every={c: stride for c in PARCONS})
+    cs = ac.cases(dss, PARCONS, SCHEMES, flags=(1,), every={c: stride for c in PARCONS}, namings=ac.NAMINGS3)
     cs += ac.cases(dss, PARCONS, SCHEMES, flags=(1,), env="standin", every={c: stride * 2 for c in PARCONS})
     cs += ac.cases(dss, OTHERS, SCHEMES, flags=(1, 0), every={c: others_stride for c in OTHERS})
     return cs
@@ -44,6 +45,9 @@ def stages(tier, rng, only=None):
            ac.stage("runs3x2", PID, lambda: _runs(grids.datasets(3, 2)), _nt_run),
            ac.stage("sparse", PID, lambda: _runs([ac.sparse_dataset(rng, 5) for _ in range(250 if tier == "quick" else 2500)],
                                                  1, 3), _nt_run)]
+    out.append(ac.stage("cycles", PID, lambda: _runs(
+        [ac.cyclic_dataset(rng, 3, 5, incomplete=k % 2 == 1) for k in range(100 if tier == "quick" else 1000)]
+        + [ac.two_cycles(rng) for _ in range(12 if tier == "quick" else 100)], 1, 6), _nt_run))
     if tier == "thorough":
         out.append(Stage("partitions3x3", "Trace_Part", partrun.run_partitions,
                          lambda: _cases(grids.datasets(3, 3), SCHEMES, False), _nt_part, partrun.init, aux=aux))
